@@ -89,8 +89,9 @@ def confirm(mid, prop, suite=True):
     meta["needs_to_manifest"] = "see notes.md"
     meta["what_i_ran"] = ("demo.py in a fresh scratch worktree of /repo without and with patch.diff; "
                           "pytest -n 16 xgcm with patch.diff applied; then the registered quick check(s) with XSIM_REPO=<scratch>")
-    if old_meta.get("checks"):
-        meta["checks"] = old_meta["checks"]
+    for keep in ("checks", "first_run", "first_run_verdict", "ported"):
+        if old_meta.get(keep):
+            meta[keep] = old_meta[keep]
     json.dump(meta, open(os.path.join(dst, "meta.json"), "w"), indent=1)
     print(json.dumps(meta["confirmed"], indent=1))
     return ok
